@@ -4,9 +4,9 @@ L = "src/graphql/language/"
 VARIANTS = []
 
 
-def v(id, prop, rule, file, old, new, **kw):
+def v(id, prop, rule, file, old, new, extra_edits=(), **kw):
     VARIANTS.append({"id": id, "property": prop, "rule": rule,
-                     "edits": [{"file": file, "old": old, "new": new}], **kw})
+                     "edits": [{"file": file, "old": old, "new": new}, *extra_edits], **kw})
 
 
 # -- C01 LEX-BOUNDS ---------------------------------------------------------------------------
@@ -480,3 +480,54 @@ v("c13-unfix-oneof-wrapped-parent", "C13", "WRAPPED-KIND-TEST", V + "rules/varia
 v("c05-unfix-failure-allocates", "C05", "ID-LIFECYCLE", E + "incremental/incremental_publisher.py",
   "            group_id = self._ids.get(group)\n            if group_id is not None:\n                context.completed.append(\n                    CompletedResult(group_id, [ensure_graphql_error(event.error)])\n                )\n                del self._ids[group]",
   "            context.completed.append(\n                CompletedResult(\n                    self._ensure_id(group), [ensure_graphql_error(event.error)]\n                )\n            )\n            del self._ids[group]")
+
+# -- unfix variants of the three C01 repairs 5430bb3 / 270825c / 143f257 ------------------------------------
+v("c01-unfix-tuple-nodes", "C01", "UNTRUSTED-ATTR", "src/graphql/error/graphql_error.py",
+  "nodes = list(nodes) if isinstance(nodes, tuple) else [nodes]  # type: ignore", "nodes = [nodes]  # type: ignore")
+v("c01-unfix-inspect-huge-int", "C01", "STR-TOTAL", "src/graphql/pyutils/inspect.py",
+  "    if isinstance(value, int):\n        try:\n            return trunc_str(repr(value))\n        except ValueError:  # beyond the limit for integer string conversion\n            return trunc_str(hex(value))\n    if isinstance(value, (str, bytes, bytearray)):",
+  "    if isinstance(value, (int, str, bytes, bytearray)):")
+v("c01-unfix-nonstr-key", "C01", "STR-TOTAL", "src/graphql/utilities/validate_input_value.py",
+  "if hide_suggestions or not isinstance(field_name, str)", "if hide_suggestions")
+v("c01-nonstr-key-guard-as-statement", "C01", "STR-TOTAL", "src/graphql/utilities/validate_input_value.py",
+  "                suggestion = (\n                    \"\"\n                    if hide_suggestions or not isinstance(field_name, str)\n                    else did_you_mean(suggestion_list(field_name, list(field_defs)))\n                )\n",
+  "                suggestion = \"\"\n                if not hide_suggestions and isinstance(field_name, str):\n                    suggestion = did_you_mean(suggestion_list(field_name, list(field_defs)))\n",
+  expect="silent")
+
+# -- round 4: C11 ------------------------------------------------------------------------------------------
+v("c11-edit-twice", "C11", "EDIT-ONCE", L + "visitor.py",
+  "        if result is None and is_edited:\n", "        if is_edited and (result is None or isinstance(result, VisitorActionEnum)):\n")
+v("c11-edit-once-reordered-test", "C11", "EDIT-ONCE", L + "visitor.py",
+  "        if result is None and is_edited:\n", "        if is_edited and result is None:\n", expect="silent")
+v("c11-keys-memo-inherited", "C11", "CLASS-MEMO-OWN", L + "ast.py",
+  "        if not hasattr(cls, \"__dataclass_fields__\"):\n            return ()  # During class construction\n        return tuple(f.name for f in fields(cls))\n",
+  "        try:\n            return cls._field_names  # type: ignore[attr-defined]\n        except AttributeError:\n            if not hasattr(cls, \"__dataclass_fields__\"):\n                return ()  # During class construction\n            names = tuple(f.name for f in fields(cls))\n            cls._field_names = names  # type: ignore[attr-defined]\n            return names\n")
+v("c11-keys-memo-own-dict", "C11", "CLASS-MEMO-OWN", L + "ast.py",
+  "        if not hasattr(cls, \"__dataclass_fields__\"):\n            return ()  # During class construction\n        return tuple(f.name for f in fields(cls))\n",
+  "        names = cls.__dict__.get(\"_field_names\")\n        if names is None:\n            if not hasattr(cls, \"__dataclass_fields__\"):\n                return ()  # During class construction\n            names = tuple(f.name for f in fields(cls))\n            cls._field_names = names  # type: ignore[attr-defined]\n        return names\n",
+  expect="silent")
+v("c11-parallel-looks-up-by-name", "C11", "HANDLER-LOOKUP", L + "visitor.py",
+  "                enter, leave = visitor.get_enter_leave_for_kind(kind)\n",
+  "                enter = getattr(visitor, f\"enter_{kind}\", None) or getattr(visitor, \"enter\", None)\n                leave = getattr(visitor, f\"leave_{kind}\", None) or getattr(visitor, \"leave\", None)\n")
+v("c11-lookup-helper-for-self", "C11", "HANDLER-LOOKUP", L + "visitor.py",
+  "            enter_fn = getattr(self, f\"enter_{kind}\", None)\n            if not enter_fn:\n                enter_fn = getattr(self, \"enter\", None)\n            leave_fn = getattr(self, f\"leave_{kind}\", None)\n            if not leave_fn:\n                leave_fn = getattr(self, \"leave\", None)\n            enter_leave = EnterLeaveVisitor(enter_fn, leave_fn)\n",
+  "            enter_leave = _find_enter_leave(self, kind)\n",
+  expect="silent", extra_edits=[{"file": L + "visitor.py", "old": "class Stack(NamedTuple):",
+  "new": "def _find_enter_leave(visitor: Visitor, kind: str) -> EnterLeaveVisitor:\n    enter_fn = getattr(visitor, f\"enter_{kind}\", None)\n    if not enter_fn:\n        enter_fn = getattr(visitor, \"enter\", None)\n    leave_fn = getattr(visitor, f\"leave_{kind}\", None)\n    if not leave_fn:\n        leave_fn = getattr(visitor, \"leave\", None)\n    return EnterLeaveVisitor(enter_fn, leave_fn)\n\n\nclass Stack(NamedTuple):"}])
+
+# -- round 4: C06 ------------------------------------------------------------------------------------------
+v("c06-started-task-counts-as-integrated", "C06", "UNINTEGRATED-WORK", E + "incremental/work_queue.py",
+  "            if task_node.value is not _UNSET:\n                return  # the work produced by the task has been integrated\n",
+  "            return\n")
+v("c06-integrated-test-inverted-form", "C06", "UNINTEGRATED-WORK", E + "incremental/work_queue.py",
+  "            if task_node.value is not _UNSET:\n                return  # the work produced by the task has been integrated\n",
+  "            integrated = task_node.value is not _UNSET\n            if integrated:\n                return\n", expect="silent")
+v("c06-abort-callback-depends-on-cancel", "C06", "ABORT-CALLBACK", E + "incremental/computation.py",
+  "            future.cancel()\n            on_abort = self._on_abort\n            if on_abort is not None:\n",
+  "            on_abort = self._on_abort\n            if future.cancel() and on_abort is not None:\n")
+v("c06-abort-callback-truthiness", "C06", "ABORT-CALLBACK", E + "incremental/computation.py",
+  "            on_abort = self._on_abort\n            if on_abort is not None:\n                return on_abort(reason)\n",
+  "            if self._on_abort is None:\n                return None\n            return self._on_abort(reason)\n", expect="silent")
+v("c06-close-after-handover", "C06", "HANDOVER-OWNER", E + "executor.py",
+  "            completed_results[index] = await completed_results[index]\n",
+  "            try:\n                completed_results[index] = await completed_results[index]\n            except Exception:\n                if early_return is not None:\n                    with suppress_exceptions:\n                        await early_return()\n                raise\n")
